@@ -62,7 +62,7 @@ def scenarios(ctx):
         add("race-end", P_RACE, ONE)
         add("kill", P_KILL, [{"k": 1}, {"f": 1}], kill=True, program_b=P_KILL_B)
         add("kill-1p", P_1C, [{"k": 1, "f": 1}, {"k": 1, "r": 1}], kill=True, program_b=P_1C)
-        add("acl", P_ACL, [{"f": 1}, {"r": 1}], faults=["acl-topic"], liveness=False)
+        add("acl", P_ACL, [{"f": 1}, {"r": 1}], faults=["acl-topic"], liveness=False, family="acl")
     else:
         two = [{"f": 2}, {"f": 1, "r": 1}, {"r": 2}, {"p": 1, "f": 1}, {"p": 1, "r": 1}]
         add("1p-commit", P_1C, [{"f": 2, "r": 1}, {"f": 1, "r": 2}, {"p": 1, "f": 1, "r": 1}])
@@ -75,8 +75,8 @@ def scenarios(ctx):
         add("race-end", P_RACE, two)
         add("kill", P_KILL, [{"k": 1, "f": 1}, {"k": 1, "r": 1}], kill=True, program_b=P_KILL_B)
         add("kill-1p", P_1C, [{"k": 1, "f": 2}, {"k": 1, "f": 1, "r": 1}, {"k": 1, "p": 1}], kill=True, program_b=P_1C)
-        add("acl", P_ACL, [{"f": 1, "r": 1}, {"f": 1, "p": 1}], faults=["acl-topic"], liveness=False)
-        add("acl-retriable", P_ACL, [{"f": 2}], faults=RETRIABLE + ["acl-topic"], liveness=False)
+        add("acl", P_ACL, [{"f": 1, "r": 1}, {"f": 1, "p": 1}], faults=["acl-topic"], liveness=False, family="acl")
+        add("acl-retriable", P_ACL, [{"f": 2}], faults=RETRIABLE + ["acl-topic"], liveness=False, family="acl")
     return out
 
 
